@@ -1,6 +1,6 @@
 (** Proofs about the calendar model [Cal]. *)
 From Coq Require Import ZArith List Bool Lia ZifyBool.
-From Verif Require Import Cal.
+From Verif Require Import Base Cal Tables Period PeriodSpec.
 Ltac Zify.zify_post_hook ::= Z.to_euclidean_division_equations.
 Open Scope Z_scope.
 
@@ -202,3 +202,63 @@ Qed.
 Theorem add_days_ord a n : valid a -> 1 <= ord a + n ->
   valid (add_days a n) /\ ord (add_days a n) = ord a + n.
 Proof. intros Ha Hn. unfold add_days. destruct (of_ord_spec _ Hn). auto. Qed.
+
+(** * The day after, weekdays *)
+
+Theorem ord_epoch : ord (1, 1, 1) = 1.
+Proof. reflexivity. Qed.
+
+Theorem ord_next_day c : valid c -> valid (next_day c) /\ ord (next_day c) = ord c + 1.
+Proof.
+  destruct c as [[y m] d]. intros H. apply valid_iff in H. destruct H as [Hy [Hm Hd]].
+  unfold next_day. rewrite dim_dim'.
+  destruct (Z.ltb_spec d (dim' (leap y) m)).
+  - split; [apply valid_iff; lia | rewrite !ord_off; lia].
+  - assert (d = dim' (leap y) m) by lia. subst d.
+    destruct (Z.ltb_spec m 12).
+    + split.
+      * apply valid_iff. pose proof (dim'_pos (leap y) (m + 1)). lia.
+      * rewrite !ord_off, off_succ by lia. lia.
+    + assert (m = 12) by lia. subst m. split.
+      * apply valid_iff. pose proof (dim'_pos (leap (y + 1)) 1). lia.
+      * rewrite !ord_off, ybase_succ, off_1. pose proof (off_12 (leap y)). lia.
+Qed.
+
+Theorem add_days_1 c : valid c -> add_days c 1 = next_day c.
+Proof.
+  intros H. destruct (ord_next_day c H) as [V E]. pose proof (ord_pos c H).
+  destruct (add_days_ord c 1 H ltac:(lia)) as [V' E']. apply ord_inj; [assumption|assumption|lia].
+Qed.
+
+Theorem isoweekday_range c : 1 <= isoweekday c <= 7.
+Proof. unfold isoweekday. lia. Qed.
+
+Theorem isoweekday_epoch : isoweekday (1, 1, 1) = 1.
+Proof. reflexivity. Qed.
+
+Theorem isoweekday_next c : valid c -> isoweekday (next_day c) = isoweekday c mod 7 + 1.
+Proof. intros H. destruct (ord_next_day c H) as [_ E]. unfold isoweekday. rewrite E. lia. Qed.
+
+Theorem weekday_period_7 c n : valid c -> 1 <= ord c + 7 * n ->
+  isoweekday (add_days c (7 * n)) = isoweekday c.
+Proof.
+  intros H Hn. destruct (add_days_ord c (7 * n) H Hn) as [_ E]. unfold isoweekday. rewrite E. lia.
+Qed.
+
+Theorem start_of_week_spec c : valid c ->
+  valid (start_of_week c) /\ isoweekday (start_of_week c) = 1
+  /\ ord (start_of_week c) <= ord c < ord (start_of_week c) + 7.
+Proof.
+  intros H. pose proof (ord_pos c H) as Hp. unfold start_of_week.
+  destruct (add_days_ord c (1 - isoweekday c) H) as [V E]; [unfold isoweekday; lia|].
+  split; [assumption|]. unfold isoweekday at 1. rewrite E. unfold isoweekday. lia.
+Qed.
+
+Theorem end_of_week_spec c : valid c ->
+  valid (end_of_week c) /\ isoweekday (end_of_week c) = 7
+  /\ ord c <= ord (end_of_week c) < ord c + 7.
+Proof.
+  intros H. pose proof (ord_pos c H) as Hp. unfold end_of_week.
+  destruct (add_days_ord c (7 - isoweekday c) H) as [V E]; [unfold isoweekday; lia|].
+  split; [assumption|]. unfold isoweekday at 1. rewrite E. unfold isoweekday. lia.
+Qed.
